@@ -195,6 +195,13 @@ impl Model {
             let free = a >= l || self.d[a..=b.min(l - 1)].iter().all(|&c| c == 0);
             ranges.push(free);
         }
+        // extreme arguments: positions far beyond anything placed
+        let all_zero = self.d.iter().all(|&c| c == 0);
+        peeks.push(be.clone());
+        frees.push(all_zero);
+        posfree.push(true);
+        ranges.push(all_zero);
+        ranges.push(true);
         Snapshot {
             rendering,
             len: l + self.lz,
@@ -311,6 +318,11 @@ fn snapshot_real(ds: &DigitString, history: &[Op]) -> Snapshot {
     for (a, b) in range_pairs(l) {
         ranges.push(ds.is_range_free(a, b));
     }
+    peeks.push(ds.peek(usize::MAX).to_vec());
+    frees.push(ds.is_free(usize::MAX));
+    posfree.push(ds.is_position_free(usize::MAX));
+    ranges.push(ds.is_range_free(0, usize::MAX));
+    ranges.push(ds.is_range_free(usize::MAX - 1, usize::MAX));
     // frozenness: replay the history on a fresh builder and try an operation that can
     // only be refused by a frozen builder (a non-zero digit far left of everything).
     let mut probe = DigitString::new();
@@ -369,10 +381,10 @@ fn gen_digits(rng: &mut Rng) -> String {
 fn gen_op(rng: &mut Rng, w: &[u32; 9]) -> Op {
     match rng.weighted(w) {
         0 => Op::Put(gen_digits(rng)),
-        1 => Op::PutDigitAt((b'0' + rng.below(10) as u8) as char, rng.below(15)),
+        1 => Op::PutDigitAt((b'0' + rng.below(10) as u8) as char, if rng.chance(1, 20) { rng.range(15, 70) } else { rng.below(15) }),
         2 => Op::Fput(gen_digits(rng)),
         3 => Op::Push(gen_digits(rng)),
-        4 => Op::Shift(*rng.pick(&[0usize, 1, 2, 2, 3, 3, 3, 4, 5, 6, 6, 9, 9, 12, 14, 7])),
+        4 => Op::Shift(*rng.pick(&[0usize, 1, 2, 2, 3, 3, 3, 4, 5, 6, 6, 9, 9, 12, 14, 7, 15, 24, 63])),
         5 => Op::Freeze,
         6 => Op::Reset,
         7 => Op::SetFlags(*rng.pick(&[0u64, 1, 2, 3, 63, u64::MAX])),
@@ -597,7 +609,7 @@ impl Check for C12 {
 
     fn assumptions(&self) -> Vec<String> {
         vec![
-            "digit arguments are ASCII digits; positions and shift widths <= 14; is_range_free called with start < end (its own debug_assert precondition)".into(),
+            "digit arguments are ASCII digits; mutating positions and shift widths are at most 69 (a position near usize::MAX is an allocation request, not a builder property); queries are also called with usize::MAX; is_range_free is called with start < end (its own debug_assert precondition)".into(),
             "push on a frozen builder is unconstrained by the property's anchor (frozen guard listed for put/put_digit_at/fput/shift only); only the model's documented 'append' semantics is compared".into(),
             "error kinds are not compared, only Ok/Err".into(),
             "the reference model (c12.rs, ~150 lines, positional arithmetic) is trusted; it is validated by the seeded mutants".into(),
